@@ -48,6 +48,58 @@ def run_e1(prop, tier):
     return dict(results=res, seconds=time.time() - t0)
 
 
+def _xc_task(task):
+    name, variant, samples, seed = task
+    try:
+        from sedvc import crosscheck
+        r = crosscheck.crosscheck(name, variant, samples=samples, seed=seed, repo_root=REPO)
+        r['disagree'] = r['disagree'][:2]
+        return r
+    except Exception as e:      # noqa
+        return dict(function=name, variant=variant, agree=0, disagree=[], discarded=0, skipped=0, paths=0, reason='cross-check not possible: %s: %s' % (type(e).__name__, str(e)[:120]))
+
+
+def run_crosscheck(prop, tier, seed):
+    """CPython cross-check of the symbolic executor on the functions of this property (sedvc/crosscheck.py): tests the
+    ENCODING the proofs were made in.  Returns (summary dict, list of disagreements)."""
+    import multiprocessing as mp
+    from sedvc import engine
+    names = PROPS[prop].get('e1', [])
+    if not names:
+        return None, []
+    it = engine.make_interp(REPO)
+    tasks = []
+    for nm in names:
+        con = it.contracts.get(nm)
+        if con is None or getattr(con, 'trusted', False):
+            continue
+        if getattr(con, 'crosscheck', True) is not True:
+            continue
+        for v in (getattr(con, 'variants', None) or (None,)):
+            tasks.append((nm, v, 1 if tier == 'quick' else 3, seed))
+    if not tasks:
+        return None, []
+    t0 = time.time()
+    ctx = mp.get_context('fork')
+    out = []
+    with ctx.Pool(processes=max(2, (os.cpu_count() or 4) // 2), maxtasksperchild=1) as pool:
+        pending = [(t, pool.apply_async(_xc_task, (t,))) for t in tasks]
+        for t, h in pending:
+            try:
+                out.append(h.get(timeout=300))
+            except Exception as e:      # noqa  (timeout: that function is simply not cross-checked in this run)
+                out.append(dict(function=t[0], variant=t[1], agree=0, disagree=[], discarded=0, skipped=0, paths=0, reason='timed out'))
+    summ = dict(what='executor vs CPython on sampled inputs (a test of the encoding, not a proof; DESIGN.md 6.4)',
+                samples_agreeing=sum(r['agree'] for r in out), samples_agreeing_relationally=sum(r.get('agree_relational', 0) for r in out),
+                samples_disagreeing=sum(len(r['disagree']) for r in out), samples_discarded=sum(r['discarded'] for r in out),
+                samples_not_comparable=sum(r['skipped'] for r in out), seconds=round(time.time() - t0, 1),
+                per_function=[dict(function=r['function'] + ('[%s]' % r['variant'] if r.get('variant') else ''), agree=r['agree'],
+                                   agree_relational=r.get('agree_relational', 0), disagree=len(r['disagree']), discarded=r['discarded'],
+                                   not_comparable=r['skipped'], reason=r.get('reason')) for r in out])
+    dis = [(r['function'], r.get('variant'), d) for r in out for d in r['disagree']]
+    return summ, dis
+
+
 def run_e2(prop, tier, seed):
     spec = PROPS[prop].get('e2')
     if spec is None:
@@ -186,6 +238,17 @@ def main(argv):
                           wall_seconds=round(e1['seconds'], 2), ledger_expected=len(led.get('obligations', [])), ledger_missing=missing)
         if obligations == 0 and info.get('e1') and not undecided and not crashes:
             crashes.append('E1 generated zero obligations')
+    # ---------------- cross-check of the encoding against CPython
+    xc_summary = None
+    if os.environ.get('SEDVC_NO_CROSSCHECK') != '1':
+        try:
+            xc_summary, xc_dis = run_crosscheck(prop, tier, seed)
+            for fn_, var_, d in xc_dis:
+                path = write_replay(prop, 'crosscheck-%s-%s' % (fn_.split('.')[-1], d.get('path')), dict(property=prop, kind='engine-crosscheck', function=fn_, variant=var_, disagreement=d))
+                undecided.append('engine cross-check: the symbolic executor and CPython disagree on %s%s (%s); proofs through this function are not trusted until resolved; see %s'
+                                 % (fn_, '[%s]' % var_ if var_ else '', d.get('detail'), path))
+        except Exception:
+            undecided.append('engine cross-check did not run: ' + traceback.format_exc()[-400:])
     # ---------------- E2
     rec = None
     try:
@@ -215,7 +278,7 @@ def main(argv):
     for c in crashes:
         print("CHECKER-FAULT %s" % c)
     wall = time.time() - t0
-    write_evidence(prop, tier, seed, info, e1_summary, rec, samples, assumptions, undecided, len(new_violations), wall)
+    write_evidence(prop, tier, seed, info, e1_summary, rec, samples, assumptions, undecided, len(new_violations), wall, xc_summary)
     if new_violations:
         return 1
     if crashes:
@@ -246,9 +309,11 @@ def lemma_base(prop, tier):
     return out
 
 
-def write_evidence(prop, tier, seed, info, e1s, rec, samples, assumptions, undecided, nviol, wall):
+def write_evidence(prop, tier, seed, info, e1s, rec, samples, assumptions, undecided, nviol, wall, xc=None):
     level = info['level']
     cov = {}
+    if xc is not None:
+        cov['engine_crosscheck'] = xc
     cov['lemma_base'] = lemma_base(prop, tier)
     if rec is not None:
         cov.update(rec.summary())
